@@ -292,22 +292,25 @@ Fixpoint wi_trees (tbl : table) (g : guard) (k : nat) (ts : list tree) : nat * l
       else let '(k', r) := wi_trees tbl g k ts' in (k', t :: r)
   end.
 
+(* one loop of _worker_init_fn: the members of the entries named f, admitted by g, are re-seeded in list order *)
+Fixpoint wi_pass (tbl : table) (f : string) (g : guard) (k : nat) (l : list (string * list tree))
+  : nat * list (string * list tree) :=
+  match l with
+  | [] => (k, [])
+  | fk :: l' =>
+      if String.eqb (fst fk) f
+      then let '(k1, ts') := wi_trees tbl g k (snd fk) in
+           let '(k2, r) := wi_pass tbl f g k1 l' in (k2, (fst fk, ts') :: r)
+      else let '(k2, r) := wi_pass tbl f g k l' in (k2, fk :: r)
+  end.
+
 (* _worker_init_fn of the wrapper iterates ITS OWN field list (w_wi), in that order *)
 Fixpoint wi_fields (tbl : table) (wi : list (string * guard)) (k : nat) (kids : list (string * list tree))
   : nat * list (string * list tree) :=
   match wi with
   | [] => (k, kids)
   | (f, g) :: wi' =>
-      let '(k', kids') :=
-        (fix go (k : nat) (l : list (string * list tree)) : nat * list (string * list tree) :=
-           match l with
-           | [] => (k, [])
-           | fk :: l' =>
-               if String.eqb (fst fk) f
-               then let '(k1, ts') := wi_trees tbl g k (snd fk) in
-                    let '(k2, r) := go k1 l' in (k2, (fst fk, ts') :: r)
-               else let '(k2, r) := go k l' in (k2, fk :: r)
-           end) k kids in
+      let '(k', kids') := wi_pass tbl f g k kids in
       wi_fields tbl wi' k' kids'
   end.
 
